@@ -69,7 +69,7 @@ def int_setting(config, language, key):
     return int_if_set(config, key) and implies(has_lang(config, language), int_if_set(config[language], key))
 
 
-@contract(NC + "NestingConfig.from_dict", props=["C05", "C01"], types=dict(config=Dict, language=Opt(Str), lang_config=Any),
+@contract(NC + "NestingConfig.from_dict", props=["C05", "C01", "C04", "C08", "C10"], types=dict(config=Dict, language=Opt(Str), lang_config=Any),
           returns=NestingConfigT, raises=["ValueError"])
 class NestingFromDict:
     def requires(config, language):
@@ -97,7 +97,7 @@ class SRPPostInit:
         return self.max_methods <= 0 or self.max_loc <= 0
 
 
-@contract(SC + "SRPConfig.from_dict", props=["C05", "C16"], types=dict(config=Dict, language=Opt(Str), lang_config=Any),
+@contract(SC + "SRPConfig.from_dict", props=["C05", "C16", "C04", "C08", "C10"], types=dict(config=Dict, language=Opt(Str), lang_config=Any),
           returns=SRPConfigT, raises=["ValueError"])
 class SRPFromDict:
     def requires(config, language):
@@ -131,7 +131,7 @@ CloneConfigT = Rec("CloneAbuseConfig", cls=CC + "CloneAbuseConfig", pycls="src.l
                    detect_unnecessary_clone=Bool, ignore=SeqOf(Str))
 
 
-@contract(UC + "UnwrapAbuseConfig.from_dict", props=["C05", "C17"], types=dict(config=Dict, language=Opt(Str)),
+@contract(UC + "UnwrapAbuseConfig.from_dict", props=["C05", "C17", "C04", "C08", "C10"], types=dict(config=Dict, language=Opt(Str)),
           returns=UnwrapConfigT)
 class UnwrapFromDict:
     def ensures_switches(config, language, result):
@@ -139,7 +139,7 @@ class UnwrapFromDict:
             and result.allow_expect == config.get("allow_expect", True) and result.ignore == config.get("ignore", RUST_IGNORE)
 
 
-@contract(CC + "CloneAbuseConfig.from_dict", props=["C05", "C17"], types=dict(config=Dict, language=Opt(Str)),
+@contract(CC + "CloneAbuseConfig.from_dict", props=["C05", "C17", "C04", "C08", "C10"], types=dict(config=Dict, language=Opt(Str)),
           returns=CloneConfigT)
 class CloneFromDict:
     def ensures_switches(config, language, result):
@@ -150,7 +150,7 @@ class CloneFromDict:
             and result.ignore == config.get("ignore", RUST_IGNORE)
 
 
-@contract(BC + "BlockingAsyncConfig.from_dict", props=["C05", "C17"], types=dict(config=Dict, language=Opt(Str)),
+@contract(BC + "BlockingAsyncConfig.from_dict", props=["C05", "C17", "C04", "C08", "C10"], types=dict(config=Dict, language=Opt(Str)),
           returns=BlockingConfigT)
 class BlockingFromDict:
     def ensures_switches(config, language, result):
@@ -166,7 +166,7 @@ PerfConfigT = Rec("PerformanceConfig", cls=PC + "PerformanceConfig", pycls="src.
                   enabled=Bool)
 
 
-@contract(PC + "PerformanceConfig.from_dict", props=["C05"], types=dict(config=Dict, language=Opt(Str)), returns=PerfConfigT)
+@contract(PC + "PerformanceConfig.from_dict", props=["C05", "C04", "C08", "C10"], types=dict(config=Dict, language=Opt(Str)), returns=PerfConfigT)
 class PerfFromDict:
     def ensures_switches(config, language, result):
         return result.enabled == config.get("enabled", True)
@@ -178,7 +178,7 @@ CQSConfigT = Rec("CQSConfig", cls=QC + "CQSConfig", pycls="src.linters.cqs.confi
                  detect_fluent_interface=Bool)
 
 
-@contract(QC + "CQSConfig.from_dict", props=["C05"], types=dict(config=Dict, language=Opt(Str)), returns=CQSConfigT)
+@contract(QC + "CQSConfig.from_dict", props=["C05", "C04", "C08", "C10"], types=dict(config=Dict, language=Opt(Str)), returns=CQSConfigT)
 class CQSFromDict:
     def ensures_switches(config, language, result):
         return result.enabled == config.get("enabled", True) and result.min_operations == config.get("min_operations", 1) \
@@ -195,7 +195,7 @@ LBYLConfigT = Rec("LBYLConfig", cls=LC + "LBYLConfig", pycls="src.linters.lbyl.c
                   ignore=SeqOf(Str))
 
 
-@contract(LC + "LBYLConfig.from_dict", props=["C05"], types=dict(config=Dict, language=Opt(Str)), returns=LBYLConfigT)
+@contract(LC + "LBYLConfig.from_dict", props=["C05", "C04", "C08", "C10"], types=dict(config=Dict, language=Opt(Str)), returns=LBYLConfigT)
 class LBYLFromDict:
     def ensures_switches(config, language, result):
         return result.enabled == config.get("enabled", True) and result.detect_dict_key == config.get("detect_dict_key", True) \
@@ -222,7 +222,7 @@ class PipelinePostInit:
         return self.min_continues < 1
 
 
-@contract(PLC + "CollectionPipelineConfig.from_dict", props=["C05"], types=dict(config=Dict, language=Opt(Str)),
+@contract(PLC + "CollectionPipelineConfig.from_dict", props=["C05", "C04", "C08", "C10"], types=dict(config=Dict, language=Opt(Str)),
           returns=PipelineConfigT, raises=["ValueError"])
 class PipelineFromDict:
     def requires(config, language):
@@ -250,7 +250,7 @@ def list_or_empty(d, key):
     return d[key] if key in d and isinstance(d[key], list) else []
 
 
-@contract(STC + "StatelessClassConfig.from_dict", props=["C05"], types=dict(config=Opt(Dict), language=Opt(Str), ignore_patterns=Any),
+@contract(STC + "StatelessClassConfig.from_dict", props=["C05", "C04", "C08", "C10"], types=dict(config=Opt(Dict), language=Opt(Str), ignore_patterns=Any),
           returns=StatelessConfigT)
 class StatelessFromDict:
     def ensures_none_is_default(config, language, result):
@@ -277,7 +277,7 @@ LazyConfigT = Rec("LazyIgnoresConfig", cls=LZC + "LazyIgnoresConfig", pycls="src
                   min_justification_length=Int, ignore_patterns=SeqOf(Str))
 
 
-@contract(LZC + "LazyIgnoresConfig.from_dict", props=["C05"], types=dict(config_dict=Dict), returns=LazyConfigT)
+@contract(LZC + "LazyIgnoresConfig.from_dict", props=["C05", "C04", "C08", "C10"], types=dict(config_dict=Dict), returns=LazyConfigT)
 class LazyFromDict:
     def ensures_switches(config_dict, result):
         return result.check_noqa == config_dict.get("check_noqa", True) \
@@ -305,7 +305,7 @@ def str_list_if_set(d, key):
     return implies(key in d, is_str_list(d[key]))
 
 
-@contract(PRC + "PrintStatementConfig.from_dict", props=["C05"],
+@contract(PRC + "PrintStatementConfig.from_dict", props=["C05", "C04", "C08", "C10"],
           types=dict(config=Dict, language=Opt(Str), lang_config=Any, ignore_patterns=Any), returns=PrintConfigT)
 class PrintFromDict:
     """console_methods becomes a set (membership only in the engine): no clause is stated about it here."""
@@ -396,7 +396,7 @@ def sub_get(config, section, key):
 DRY_INT_KEYS = ("min_duplicate_lines", "min_duplicate_tokens", "min_occurrences", "min_constant_occurrences")
 
 
-@contract(DC + "DRYConfig.from_dict", props=["C05", "C03"],
+@contract(DC + "DRYConfig.from_dict", props=["C05", "C03", "C04", "C08", "C10"],
           types=dict(config=Dict, python_config=Any, typescript_config=Any, javascript_config=Any, custom_filters=Any, filters=Dict),
           returns=DRYConfigT, raises=["ValueError"])
 class DRYFromDict:
@@ -451,7 +451,7 @@ def rf_for(config_dict, lang, default):
     return config_dict["required_fields"].get(lang, default)
 
 
-@contract(FHC + "FileHeaderConfig.from_dict", props=["C05"],
+@contract(FHC + "FileHeaderConfig.from_dict", props=["C05", "C04", "C08", "C10"],
           types=dict(config_dict=Dict, language=Opt(Str), required_fields=Any, defaults=FileHeaderConfigT), returns=FileHeaderConfigT)
 class FileHeaderFromDict:
     def requires(config_dict, language):
@@ -491,7 +491,7 @@ class LoadSetConfig:
         return True
 
 
-@contract(MPC + "MethodPropertyConfig.from_dict", props=["C05"],
+@contract(MPC + "MethodPropertyConfig.from_dict", props=["C05", "C04", "C08", "C10"],
           types=dict(config=Opt(Dict), language=Opt(Str), ignore_patterns=Any, ignore_methods=Any), returns=MethodPropertyConfigT)
 class MethodPropertyFromDict:
     def ensures_none_is_default(config, language, result):
@@ -534,7 +534,7 @@ def stringly_wf(d):
     return all(int_if_set(d, k) for k in ST_INT_KEYS) and str_list_if_set(d, "ignore")
 
 
-@contract(SYC + "StringlyTypedConfig._from_base_config", props=["C05"], types=dict(config=Dict, user_ignore=Any, merged_ignore=SeqOf(Str)),
+@contract(SYC + "StringlyTypedConfig._from_base_config", props=["C05", "C04", "C08", "C10"], types=dict(config=Dict, user_ignore=Any, merged_ignore=SeqOf(Str)),
           returns=StringlyConfigT, raises=["ValueError"])
 class StringlyFromBase:
     def requires(config):
@@ -559,7 +559,7 @@ def over(base, lang, key, default):
     return lang.get(key, base.get(key, default))
 
 
-@contract(SYC + "StringlyTypedConfig._from_merged_config", props=["C05"],
+@contract(SYC + "StringlyTypedConfig._from_merged_config", props=["C05", "C04", "C08", "C10"],
           types=dict(base_config=Dict, lang_config=Dict, user_ignore=Any, merged_ignore=SeqOf(Str)),
           returns=StringlyConfigT, raises=["ValueError"])
 class StringlyFromMerged:
@@ -582,7 +582,7 @@ class StringlyFromMerged:
             and result.exclude_variables == over(base_config, lang_config, "exclude_variables", [])
 
 
-@contract(SYC + "StringlyTypedConfig.from_dict", props=["C05"], types=dict(config=Dict, language=Opt(Str), lang_config=Any),
+@contract(SYC + "StringlyTypedConfig.from_dict", props=["C05", "C04", "C08", "C10"], types=dict(config=Dict, language=Opt(Str), lang_config=Any),
           returns=StringlyConfigT, raises=["ValueError"])
 class StringlyFromDict:
     def requires(config, language):
@@ -615,25 +615,25 @@ def metadata_of(context):
     return dict(context.metadata) if isinstance(context.metadata, dict) else {}
 
 
-@contract(LU + "get_metadata", props=["C05"], types=dict(context=LintCtxT, metadata=Any), returns=Dict)
+@contract(LU + "get_metadata", props=["C05", "C08", "C10"], types=dict(context=LintCtxT, metadata=Any), returns=Dict)
 class GetMetadata:
     def value(context):
         return metadata_of(context)
 
 
-@contract(LU + "get_metadata_value", props=["C05"], types=dict(context=LintCtxT, key=Str, default=Any), returns=Any)
+@contract(LU + "get_metadata_value", props=["C05", "C08", "C10"], types=dict(context=LintCtxT, key=Str, default=Any), returns=Any)
 class GetMetadataValue:
     def value(context, key, default):
         return metadata_of(context).get(key, default)
 
 
-@contract(LU + "get_language", props=["C05"], types=dict(context=LintCtxT), returns=Opt(Str))
+@contract(LU + "get_language", props=["C05", "C08", "C10"], types=dict(context=LintCtxT), returns=Opt(Str))
 class GetLanguage:
     def value(context):
         return context.language
 
 
-@contract(LU + "ConfigProtocol.from_dict", props=["C05"], types=dict(config_dict=Dict, language=Opt(Str)), returns=GenericCfgT,
+@contract(LU + "ConfigProtocol.from_dict", props=["C05", "C08", "C10"], types=dict(config_dict=Dict, language=Opt(Str)), returns=GenericCfgT,
           raises=["ValueError", "TypeError"],
           assumed="protocol method: stands for the from_dict of ANY linter config class (each concrete one has its own "
                   "contract above); may raise ValueError (invalid value) or TypeError (no `language` parameter)")
@@ -646,7 +646,7 @@ def section_of(context, config_key):
     return metadata_of(context).get(config_key, {})
 
 
-@contract(LU + "load_linter_config", props=["C05"],
+@contract(LU + "load_linter_config", props=["C05", "C08", "C10"],
           types=dict(context=LintCtxT, config_key=Str, config_class=ConfigClassT, config_dict=Any), returns=GenericCfgT,
           raises=["ValueError", "TypeError"])
 class LoadLinterConfig:
